@@ -78,7 +78,7 @@ class C13(Prop):
         "the crash point is the return of the k-th append_tick, i.e. after the tick is durable and before its commands run",
         "the SQLite store's tick-replay page size (module constant _TICK_PAGE_SIZE = 100) is set by the harness to a generated small value in some cases, so that page boundaries fall inside the short histories; the paging code itself is the repository's",
     ]
-    budgets = {"quick": 80, "thorough": 600}
+    budgets = {"quick": 60, "thorough": 600}
     wall = {"quick": 60.0, "thorough": 900.0}
     min_nontrivial_frac = 0.02
 
